@@ -36,13 +36,13 @@ theorem LPos.next_eq (r i q : Nat) (h : q = i + 1) : (⟨r, i⟩ : LPos).next = 
 
 /-! ### the node table under `set` -/
 
-theorem Grow.set_ge {Z : Nat} {b b' : Src.B} (h : Grow Z b b') {i : Nat} (hi : (tbl b).length ≤ i) (n : Src.Node) : Grow Z b (b'.set i n) := by
+theorem Grow.set_ge {Z : Nat → Prop} {b b' : Src.B} (h : Grow Z b b') {i : Nat} (hi : (tbl b).length ≤ i) (n : Src.Node) : Grow Z b (b'.set i n) := by
   refine ⟨by rw [tbl_set]; simpa using h.1, fun j hj => ?_⟩
   have : (tbl (b'.set i n))[j]? = (tbl b')[j]? := by rw [tbl_set, List.getElem?_set_ne (by omega)]
   rw [this]; exact h.2 j hj
 
 /-- the node of a label becomes the `silent` node of the label statement -/
-theorem Grow.set_lab {Z : Nat} (b : Src.B) {i : Nat} (hi : 0 < i ∧ i < Z) (k : Nat) : Grow Z b (b.set i (.silent k)) := by
+theorem Grow.set_lab {Z : Nat → Prop} (b : Src.B) {i : Nat} (hi : Z i) (k : Nat) : Grow Z b (b.set i (.silent k)) := by
   refine ⟨by rw [tbl_set]; simp, fun j hj => ?_⟩
   by_cases e : i = j
   · subst e
@@ -50,14 +50,14 @@ theorem Grow.set_lab {Z : Nat} (b : Src.B) {i : Nat} (hi : 0 < i ∧ i < Z) (k :
   · exact .inl (by rw [tbl_set, List.getElem?_set_ne e])
 
 /-- a loop head: a placeholder is pushed, the body is translated, the placeholder is overwritten -/
-theorem agree_set {N : List Src.Node} {Z : Nat} {b b2 : Src.B} {n ph : Src.Node} (hag : AgreeOn N Z b (b2.set (tbl b).length n))
+theorem agree_set {N : List Src.Node} {Z : Nat → Prop} {b b2 : Src.B} {n ph : Src.Node} (hag : AgreeOn N Z b (b2.set (tbl b).length n))
     (g : Grow Z (b.push ph).1 b2) : N[(tbl b).length]? = some n ∧ AgreeOn N Z (b.push ph).1 b2 := by
   have hl1 : (tbl (b.push ph).1).length = (tbl b).length + 1 := by rw [(tbl_push b ph).1]; simp
   have hl2 := g.len
   have hlen : (tbl (b2.set (tbl b).length n)).length = (tbl b2).length := by rw [tbl_set]; simp
   constructor
   · rw [hag.2 _ (Nat.le_refl _) (by rw [hlen]; omega), tbl_set, List.getElem?_set_self (by omega)]
-  · refine ⟨by have := hag.1; omega, fun i h1 h2 => ?_⟩
+  · refine ⟨fun i hz => by have := hag.1 i hz; omega, fun i h1 h2 => ?_⟩
     rw [hag.2 i (by omega) (by rw [hlen]; exact h2), tbl_set, List.getElem?_set_ne (by omega)]
 
 theorem plainEnv_loop {cx : Cx} {env : Src.Env} (he : EnvOK cx env) (c bl : Option Nat) : EnvOK cx { env with cont := c, brkLoop := bl } :=
